@@ -35,7 +35,10 @@ for pid in ALL:
     if pid not in PROPS:
         manifest["not_applicable"].append({"property_id": pid, "reason": "check not built yet in this revision (no technical obstacle; see DESIGN.md section 4)"})
         continue
-    c = PROPS[pid]
+    c = dict(PROPS[pid])
+    if c.get("fuzz", {}).get("rapid"):
+        c["technique"] += "; thorough tier adds coverage-guided go fuzzing of the same generators and oracle (rapid.MakeFuzz)"
+        c["level_text"] += " The thorough tier adds a coverage-guided stage: go test -fuzz supplies the bytes from which rapid draws the case, so coverage feedback steers the same generators against the same oracle."
     manifest["checks"].append({
         "property_id": pid,
         "quick_cmd": f"./check {pid} --tier quick",
